@@ -15,7 +15,7 @@ mod tape;
 
 use runner::{CheckSpec, ScenarioPlan, Tier};
 
-fn all_checks() -> Vec<CheckSpec> {
+pub fn all_checks() -> Vec<CheckSpec> {
     vec![c01_spec(), c03_spec(), c13_spec(), c15_spec(), c16_spec(), c17_spec()]
 }
 
